@@ -81,6 +81,12 @@ func genImage(rng *Rand, w, h, kind int) *image.NRGBA {
 				} else {
 					r, g, b = rng.Intn(256), (x*16)&255, (y*16)&255
 				}
+			case 6: // noise with ONE flat macroblock: a lone macroblock in a segment of its own
+				if x/16 == 3 && y/16 == 5 {
+					r, g, b = base[0], base[1], base[2]
+				} else {
+					r, g, b = rng.Intn(256), rng.Intn(256), rng.Intn(256)
+				}
 			default: // saturated colours and extreme noise: large levels
 				if rng.Intn(2) == 0 {
 					r, g, b = 255*rng.Intn(2), 255*rng.Intn(2), 255*rng.Intn(2)
@@ -290,6 +296,25 @@ func main() {
 					run(c, &e2, im, 1)
 				}
 			}
+		}
+		// >= 510 macroblocks with a lone macroblock in another segment: every segment-tree probability
+		// rounds to 255, the encoder then does not write the segment map and must reconstruct every
+		// macroblock with the quantiser the decoder will use (segment 0); 576 macroblocks take the
+		// extracted specification decoder minutes, so the model case is for the thorough tier and the
+		// quick tier compares the encoder's planes with the Go decoder's (C04 ties that to the format)
+		for i, segs := range []int{2, 4, 3} {
+			if i == 2 && !c.Thorough() {
+				break
+			}
+			r := rng.Fork()
+			o := webp.DefaultOptions()
+			o.Quality = float32(r.Pick(50, 75, 90))
+			o.Segments = segs
+			o.FilterStrength = r.Pick(0, 60)
+			e := &c06Case{W: 384, H: 384, Kind: 6, Group: "lone-segment:", NoModel: i != 0 || !c.Thorough(), Opts: *o}
+			im := genImage(r, e.W, e.H, e.Kind)
+			e.Path = chosenPath(im, &e.Opts)
+			run(c, e, im, 0)
 		}
 		rateControlCases(c)
 		pooledPairCases(c)
